@@ -150,7 +150,7 @@ def do_replay(path, prop=None):
     with open(path) as f:
         doc = json.load(f)
     prop = prop or doc['property']
-    res = campaigns.run_any(doc['scenario'])
+    res = campaigns.run_any(doc['scenario'], prop)
     want = (doc['violation']['oracle'], doc['violation']['key'])
     if res['verdict'] == 'violation':
         v = res['violation']
@@ -370,8 +370,9 @@ def run_check(args):
         small, nruns = sc, 0
         if not args.no_shrink:
             try:
-                small, nruns = shrink(sc, campaigns.run_any, k, prop=prop)
-                res2 = campaigns.run_any(small)
+                small, nruns = shrink(
+                    sc, lambda x: campaigns.run_any(x, prop), k, prop=prop)
+                res2 = campaigns.run_any(small, prop)
                 if vkey(res2, prop) == k:
                     res = res2
                 else:
